@@ -1040,8 +1040,28 @@ fn run_conc(rt: &Runtime, cfg: &Cfg, plan: Vec<Vec<PlanTask>>, join_at: JoinAt) 
         }));
     }
     let mut rest: Vec<(usize, oneshot::Receiver<u64>)> = vec![];
+    // The dispatching threads only make non-blocking calls and bounded waits. Should one of them not come back
+    // (a `dispatch_blocking` stranded inside AsyncifyPool::dispatch, F170), a fresh pool thread rescues it:
+    // every further dispatch that finds no parked worker spawns one, which serves the blocked sender first.
+    let t0 = Instant::now();
+    let mut rescued = false;
     for h in handles {
+        while !h.is_finished() {
+            if t0.elapsed() > 2 * WATCHDOG + Duration::from_secs(5) {
+                rescued = true;
+                let _ = disp.dispatch_blocking(|| 0u64);
+                thread::sleep(Duration::from_millis(50));
+            } else {
+                thread::sleep(Duration::from_micros(200));
+            }
+        }
         rest.extend(h.join().expect("dispatching thread"));
+    }
+    if rescued {
+        ctx.problem(
+            "F170:asyncify-dispatch-stranded",
+            "dispatch blocked inside Dispatcher::dispatch_blocking until another dispatch spawned a pool thread".into(),
+        );
     }
     rt.block_on(async {
         match join_at {
@@ -1152,8 +1172,19 @@ struct GTask {
     racy: bool,
 }
 
+/// `gen_susp` without pipe I/O (nothing but the harness uses the blocking pool then)
+fn gen_susp_no_io(rng: &mut Rng) -> String {
+    gen_susp(rng).replace('i', "s")
+}
+
 fn gen_det(rng: &mut Rng) -> Vec<String> {
     let (w, conc, cfg) = gen_cfg(rng);
+    // A blocking closure that panics kills its pool thread (compio-driver's AsyncifyPool does not catch it).
+    // If that thread had been spawned for another dispatcher's rendezvous `send` -- an I/O operation of a worker
+    // runtime -- that `send` blocks for ever: finding F170 of property C17. The two are therefore not mixed
+    // in one case: either blocking closures may panic and no body does pipe I/O, or the other way round.
+    let pool_panics = rng.chance(1, 3);
+    let gen_susp = |rng: &mut Rng| if pool_panics { gen_susp_no_io(rng) } else { gen_susp(rng) };
     let mut l = vec![cfg];
     let mut tasks: Vec<GTask> = vec![];
     let mut next = 1usize;
@@ -1246,7 +1277,7 @@ fn gen_det(rng: &mut Rng) -> Vec<String> {
             5 => {
                 let t = next;
                 next += 1;
-                let end = if rng.chance(1, 6) { End::Panic } else { End::Val(rng.below(1000)) };
+                let end = if pool_panics && rng.chance(1, 3) { End::Panic } else { End::Val(rng.below(1000)) };
                 l.push(format!("b {t} {}", show_end(end)));
                 tasks.push(GTask {
                     t,
@@ -1373,7 +1404,9 @@ fn plan_conc(rng: &mut Rng, big: bool) -> (Cfg, Vec<Vec<PlanTask>>, JoinAt) {
             let blocking = rng.chance(1, 12);
             let susp = gen_susp(rng);
             let end = if blocking {
-                if rng.chance(1, 6) { End::Panic } else { End::Val(rng.below(1000)) }
+                // (never a panic here: with several dispatching threads that is the F170 scenario of C17,
+                // see `gen_det`)
+                End::Val(rng.below(1000))
             } else {
                 match rng.below(24) {
                     0..=1 => End::Panic,
@@ -1440,7 +1473,7 @@ fn main() {
     let rt = Runtime::new().expect("harness runtime");
     run_harness(
         |tier, rng| {
-            let (n_det, n_conc, n_big) = if tier == "thorough" { (4000, 2400, 120) } else { (320, 200, 8) };
+            let (n_det, n_conc, n_big) = if tier == "thorough" { (3000, 2000, 100) } else { (250, 160, 6) };
             let mut cases = vec![];
             for i in 0..n_det {
                 cases.push(Case { name: format!("det/{i}"), lines: gen_det(rng) });
